@@ -883,6 +883,17 @@ func TestC12(t *testing.T) {
 	// operation-sequence search; a wrong effective rate is a wrong premium in the agreement
 	rv, rcov := c12Rates()
 	rep.Violations = append(rep.Violations, rv...)
+	xv, xcov := c12Recovery()
+	rep.Violations = append(rep.Violations, xv...)
+	for k, v := range xcov {
+		if k == "internal" {
+			if l, ok := v.([]string); ok {
+				rep.Internal = append(rep.Internal, l...)
+			}
+			continue
+		}
+		rep.Extra[k] = v
+	}
 	if l, ok := rcov["internal"].([]string); ok {
 		rep.Internal = append(rep.Internal, l...)
 		delete(rcov, "internal")
